@@ -490,8 +490,9 @@ def multi_cases(rig, r, n_cases):
                 op = ('m', i, ('sr', ('d', chunks[-1]))) if chunks else ('mloop',)
             else: op = ('mloop',)
             ops.append(op)
-        ops += [('mloop',)] * 3
+        ops += [('mloop',)] * (3 + sum(1 for o in ops if o[0] == 'm' and o[2][0] == 'sr'))
         all_ok = True; msg = ''
+        streams = [b'' for _ in range(n)]
         for op in ops:
             mr.sync()
             if op[0] == 'mloop':
@@ -501,7 +502,9 @@ def multi_cases(rig, r, n_cases):
                 stub = mr.stubs[i]; fs = mr.ds[i].conn
                 if o[0] == 'q': stub.queueMsg(RawMsg(o[1]))
                 elif o[0] == 'ss': fs.script.append(o[1])
-                elif o[0] == 'sr': fs.recvs.append(o[1])
+                elif o[0] == 'sr':
+                    fs.recvs.append(o[1])
+                    if o[1][0] == 'd': streams[i] += o[1][1]
             mr.sync()
             outs.append(' || '.join(mr.dump(i) for i in range(n)))
         # the property per connection: what each socket got is a prefix of the encoding of what was taken for it
@@ -509,6 +512,15 @@ def multi_cases(rig, r, n_cases):
             for sk in st.socks:
                 if not encoded([str(m) for m in sk.taken]).startswith(sk.sent):
                     all_ok = False; msg = 'with %d drivers sharing _select, a socket received %r… not a prefix of the encoding of its messages' % (n, sk.sent[:60])
+        # … and every driver's input is delivered, whichever its position in SocketDriver._instances
+        for i in range(n):
+            if mr.ds[i].connected and all_ok:
+                got = [enc_msg(m) for m in mr.stubs[i].fed]
+                want = reference_messages(rig, streams[i])
+                if mr.ds[i].conn.recvs:
+                    all_ok = False; msg = 'driver %d of %d: %d recv() result(s) were never read although the loop ran once more per scripted result' % (i, n, len(mr.ds[i].conn.recvs))
+                elif got != want:
+                    all_ok = False; msg = 'driver %d of %d was delivered %d message(s), its stream %r… holds %d' % (i, n, len(got), streams[i][:60], len(want))
         cases.append(Case({'multi': n, 'ops': [[o[0]] if o[0] == 'mloop' else ['m', o[1], op_json(o[2])] for o in ops]}, impl='\n'.join(outs),
                           oracle_ok=all_ok, oracle_msg=msg, kind='multi-driver', tags=('drivers-%d' % n,)))
         lines.append('mreset\t%d' % n)
